@@ -128,7 +128,11 @@ def params(draw, cls, ctor):
         lam = draw(special_or(MANLY_SPECIAL, -5., 5.))
         if lam != 0 and abs(lam) < 1e-3:
             lam = math.copysign(1e-3, lam)
-        return {"lam": lam, "xmax": logu(draw(unit), 1e-3, 1e4)}
+        # (xmax from a millimetre to the largest volumes in cubic metres)
+        return {"lam": lam, "xmax": draw(st.one_of(
+            st.builds(lambda u: logu(u, 1e-3, 1e4), unit),
+            st.builds(lambda u: logu(u, 1e4, 1e12), unit),
+            st.sampled_from([1., 100., 1e7, 1e9, 1e12])))}
     raise KeyError(cls)
 
 
